@@ -90,6 +90,17 @@ class ClientCtx:
         return value, kind
 
 
+def embed_map(emb, y):
+    """Map the variables of an explicitly restated (reduced / rescaled) problem
+    back to the user's variables, with the very expression cobyqa's build_x uses."""
+    fixed = np.array(emb["fixed_idx"], dtype=bool)
+    x_full = np.empty(fixed.size)
+    x_full[fixed] = np.array(emb["fixed_val"], dtype=float)
+    x_full[~fixed] = (y * np.array(emb["factor"], dtype=float)
+                      + np.array(emb["shift"], dtype=float))
+    return np.clip(x_full, np.array(emb["clip_lb"], dtype=float), np.array(emb["clip_ub"], dtype=float))
+
+
 def _encode_scalar(v, ret):
     if ret == "float":
         return float(v)
@@ -112,8 +123,12 @@ def make_objective(ctx, spec):
         return None
     ret = spec.get("ret", "float")
 
+    emb = ctx.stmt.get("embed")
+
     def fun(x, *args):
         xa = np.array(x, dtype=float)
+        if emb is not None:
+            xa = embed_map(emb, xa)
         xb = xa.tobytes()
         xl = xa.tolist()
         ctx.world.yield_point(ctx, "obj.call")
@@ -142,8 +157,13 @@ def make_constraint_fun(ctx, j, spec):
     has_obj = ctx.stmt.get("obj") is not None
     twin = bool(ctx.stmt.get("twin"))
 
+    emb = ctx.stmt.get("embed")
+    n_full = len(emb["fixed_idx"]) if emb is not None else ctx.stmt["n"]
+
     def con(x, *args):
         xa = np.array(x, dtype=float)
+        if emb is not None and xa.shape == (ctx.stmt["n"],):
+            xa = embed_map(emb, xa)
         xb = xa.tobytes()
         xl = xa.tolist()
         ctx.world.yield_point(ctx, "con.call")
@@ -151,15 +171,17 @@ def make_constraint_fun(ctx, j, spec):
         idx = ctx.obj_calls if has_obj else ctx.con_calls[j]
         vals = []
         fks = []
-        bad_dim = len(xl) != ctx.stmt["n"]
+        bad_dim = len(xl) != n_full
         for ci, cs in enumerate(comps):
             if bad_dim:
                 # called in the solver's internal variables: a reply is still
                 # needed; evaluate on a zero-padded / truncated point.
-                xe = (xl + [0.0] * ctx.stmt["n"])[: ctx.stmt["n"]]
+                xe = (xl + [0.0] * n_full)[: n_full]
             else:
                 xe = xl
             v = eval_scalar(cs, xe, xb)
+            if cs.get("post_add") is not None:
+                v += cs["post_add"]
             if args:
                 v += args[0]
             # twin constraints (C12.b) must receive bit-identical data: they share the objective's faults
